@@ -102,6 +102,51 @@ func main() {
 	}
 	sort.Strings(rows)
 	fmt.Printf("def randSites : List (String × List String × Bool) := [%s]\n", strings.Join(rows, ",\n  "))
+	ex.Comment("every events.Notify call of the consensus-relevant packages: (function, event, started with `go`?)")
+	var notifies []string
+	packages.Visit(pkgs, nil, func(pk *packages.Package) {
+		rel := strings.TrimPrefix(strings.TrimPrefix(pk.PkgPath, exg.Module), "/")
+		if !(consensusPkgs[rel] || rel == "blockchain" || rel == "core/checkpoint" || rel == "mempool") {
+			return
+		}
+		for _, f := range pk.Syntax {
+			for _, d := range f.Decls {
+				fd, ok := d.(*ast.FuncDecl)
+				if !ok || fd.Body == nil {
+					continue
+				}
+				name := fd.Name.Name
+				if r := ex.RecvName(fd); r != "" {
+					name = r + "." + name
+				}
+				async := map[*ast.CallExpr]bool{}
+				ast.Inspect(fd.Body, func(x ast.Node) bool {
+					if g, ok := x.(*ast.GoStmt); ok {
+						async[g.Call] = true
+						// a literal started with `go`: everything inside runs asynchronously
+						if lit, ok := g.Call.Fun.(*ast.FuncLit); ok {
+							ast.Inspect(lit.Body, func(y ast.Node) bool {
+								if c, ok := y.(*ast.CallExpr); ok {
+									async[c] = true
+								}
+								return true
+							})
+						}
+					}
+					return true
+				})
+				ast.Inspect(fd.Body, func(x ast.Node) bool {
+					if c, ok := x.(*ast.CallExpr); ok && exg.CalleeName(pk, c) == "events.Notify" && len(c.Args) == 2 {
+						notifies = append(notifies, fmt.Sprintf("(%s, %s, %v)", ex.LeanStr(rel+"."+name), ex.LeanStr(exg.Src(pk, c.Args[0])), async[c]))
+					}
+					return true
+				})
+			}
+		}
+	})
+	sort.Strings(notifies)
+	fmt.Printf("def notifySites : List (String × String × Bool) := [\n  %s]\n", strings.Join(notifies, ",\n  "))
+
 	ex.Comment("what every Priority() method of a checkpoint implementation returns (package.Type, value)")
 	var prios []string
 	packages.Visit(pkgs, nil, func(pk *packages.Package) {
